@@ -127,11 +127,19 @@ def parseBlock (s : String) : Option (Block × Bool) :=
     let c ← ids? c
     let t ← ids? t
     pure (⟨c, t⟩, false)
-  | [c, t, "n"] => do
+  | [c, t, fl] => do
     let c ← ids? c
     let t ← ids? t
-    pure (⟨c, t⟩, true)
+    if fl == "n" || fl == "nf" then pure (⟨c, t⟩, true)
+    else if fl == "f" then pure (⟨c, t⟩, false) else none
   | _ => none
+
+/-- Round 10, block flag `f`: the block lists one more check, whose `CheckStateForMsg` fails for every
+message (backend down); every check listed before it is a global / source check. -/
+def blockDead (s : String) : Bool :=
+  match s.splitOn "/" with
+  | [_, _, fl] => fl == "f" || fl == "nf"
+  | _ => false
 
 def parseTgt (s : String) : Option Tgt :=
   match s.toList with
@@ -294,18 +302,20 @@ def parseCfg (dm g s blocks scripts delays rcpts : String) (ts : List Tgt) (q0 :
   if nmS && (mf.senderS || mf.bodyS || rs.any (fun p => mf.rcptS p.1)) then none else
   if rs.any (fun p => mf.rcptB p.1 && noMod p.2) then none else
   if (List.range bsn.length).any (fun b => mf.bodyB b && noMod b) then none else
+  let route : Rcpt → Nat := fun r => match rs.find? (fun p => p.1 == r) with
+      | some p => p.2
+      | none => 0
+  let dead := (blocks.splitOn ";").map blockDead
   let cfg : Cfg := {
     v := verdictsOf ss
     global := g
     source := s
     block := fun b => (bs[b]?).getD ⟨[], []⟩
-    route := fun r => match rs.find? (fun p => p.1 == r) with
-      | some p => p.2
-      | none => 0
+    route := route
     tgt := fun t => (ts[t]?).getD ⟨false, false⟩
     dmarc := dm
     q0 := q0
-    mf := mf }
+    mf := mf.withDeadBlocks route (fun b => (dead[b]?).getD false) }
   pure (cfg, ss.length, rs, ordOf ds, ss)
 
 def scriptRejects (s : Script) : Bool :=
@@ -525,6 +535,13 @@ def actEff (fa : FailAction) (st : Nat) : String :=
   if ob.startRefused || ob.rcpts.any (fun x => x.2) || chk then "rej"
   else if ob.final.metaQ then "quar" else "none"
 
+/-- `sl=<id>.<id>…`: strictly increasing check ids. -/
+def slOk (tok : String) : Bool :=
+  tok.startsWith "sl=" &&
+  (match (((tok.drop 3).toString.splitOn ".").mapM String.toNat? : Option (List Nat)) with
+   | none => false
+   | some ids => !List.isEmpty ids && (List.zip ids (List.drop 1 ids)).all (fun p => p.1 < p.2))
+
 def handle : List String → String
   | "run" :: mode :: dm :: g :: s :: blocks :: tgts :: rcpts :: scripts :: delays :: flag =>
     let r : Option String := do
@@ -556,7 +573,12 @@ def handle : List String → String
         | none => false
       pure (showNest m cfgO nO ordO (rsO.map (fun p => p.1)) isNest cfgI nI ordI)
     r.getD "bad-op"
+  | "multi" :: dm :: g :: tgts :: sources :: sched :: sl :: d :: "//" :: rest =>
+    -- round 10: `sl=<ids>` names the checks that are real stateless checks (check.RegisterStatelessCheck);
+    -- to the model a check is its verdicts, whatever implements it: the token is validated and dropped
+    if slOk sl then handle ("multi" :: dm :: g :: tgts :: sources :: sched :: d :: "//" :: rest) else "bad-op"
   | "multi" :: dm :: g :: tgts :: sources :: sched :: d :: "//" :: rest =>
+    if slOk d then handle ("multi" :: dm :: g :: tgts :: sources :: sched :: "//" :: rest) else
     let r : Option String := do
       let loads ← parseDirs d
       let out := handle ("multi" :: dm :: g :: tgts :: sources :: sched :: "//" :: rest)
